@@ -236,7 +236,7 @@ def audit(run, module, thorough=False):
         return
     path = os.path.join(LEAN, *module.split(".")) + ".lean"
     src = open(path, encoding="utf-8").read()
-    names = re.findall(r"^theorem\s+([A-Za-z0-9_.']+)", strip_comments(src), flags=re.M)
+    names = re.findall(r"^theorem\s+([^\s(\[{:]+)", strip_comments(src), flags=re.M)
     ns = re.findall(r"^namespace\s+(\S+)", src, flags=re.M)
     prefix = (ns[0] + ".") if ns else ""
     run.theorems = names
@@ -417,7 +417,7 @@ def main(prop, argv):
             audit(run, modules, thorough=(args.tier == "thorough"))
         else:
             run.theorems = [n for m in modules for n in re.findall(
-                r"^theorem\s+([A-Za-z0-9_.']+)", strip_comments(open(os.path.join(LEAN, *m.split(".")) + ".lean").read()), flags=re.M)]
+                r"^theorem\s+([^\s(\[{:]+)", strip_comments(open(os.path.join(LEAN, *m.split(".")) + ".lean").read()), flags=re.M)]
         if os.path.exists(DRIVER):
             run.model = Model()
         cov = None
